@@ -720,6 +720,7 @@ func multiRun(cfg multiCfg) int {
 	init0 := mw.observe()
 	listed0 := mw.listed()
 	var lsteps []string
+	var lastObs []string
 	s := vsched.New(true)
 	defer vsched.Stop()
 	tids := make([]int, len(ths))
@@ -790,9 +791,27 @@ func multiRun(cfg multiCfg) int {
 			trace = append(trace, fmt.Sprintf("t%d %s@%x -> next=%s@%x done=%v", i, pre.Label, pre.Addr, info.Label, info.Addr, info.Done))
 		}
 		lsteps = append(lsteps, I(int64(i)))
-		lsteps = append(lsteps, mw.observe()...)
+		// a lock attempt that found the lock held changes nothing: no need to
+		// decode the file again (a self-deadlock otherwise costs budget x parse)
+		if !info.Blocked || lastObs == nil {
+			lastObs = mw.observe()
+		}
+		lsteps = append(lsteps, lastObs...)
 		if debug {
-			fmt.Fprintf(os.Stderr, "  [%d] %s => %v\n", nsteps, trace[len(trace)-1], mw.observe())
+			fmt.Fprintf(os.Stderr, "  [%d] %s => %v\n", nsteps, trace[len(trace)-1], lastObs)
+		}
+		if info.Blocked {
+			// deadlock: every unfinished thread is parked before a lock it cannot take
+			all := true
+			for j := range ths {
+				if tids[j] < 0 || (!s.Done(tids[j]) && !s.Last(tids[j]).Blocked) {
+					all = false
+				}
+			}
+			if all {
+				status = "hang"
+				break
+			}
 		}
 		if info.Panic != "" {
 			status = "panic"
@@ -949,6 +968,59 @@ func systematic(k int) {
 	}
 }
 
+// regWindow (only with VH_REGWINDOW=1; a demonstration, not part of the check):
+// the window between register's claim of c.next and the link into the list.
+// File open; goroutine A's first Add on a fresh counter claims c.next and is
+// parked before the link; goroutine B's Add on the same counter finds it claimed
+// and gets a pointer into the current mapping; a rotation stores a new mapping,
+// its invalidateCounters walk misses the counter (not on the list), and it closes
+// the old mapping; goroutine D's Add then ENTERS its reader section through the
+// closed mapping (Model/CounterMulti predicts exactly this: 2 faults, both flags clear).
+func regWindow() {
+	dir, err := os.MkdirTemp(root, "w")
+	if err != nil {
+		panic(err)
+	}
+	defer os.RemoveAll(dir)
+	telemetry.Default = telemetry.NewDir(dir)
+	os.MkdirAll(telemetry.Default.LocalDir(), 0777)
+	os.WriteFile(filepath.Join(telemetry.Default.LocalDir(), "weekends"), []byte("0\n"), 0666)
+	vatomic.ResetClosed()
+	now := time.Date(2024, 1, 3, 10, 0, 0, 0, time.UTC)
+	counter.CounterTime = func() time.Time { return now }
+	f := counter.VerifNewFile()
+	f.Rotate1() // the file is open
+	c := f.NewCounter("m0")
+	mw := &mworld{f: f, cs: []*counter.Counter{c}}
+	fmt.Fprintf(os.Stderr, "regwindow: initial %v\n", mw.observe())
+	s := vsched.New(true)
+	defer vsched.Stop()
+	a := s.Go(func() { c.Add(1) })
+	for i := 0; i < 3; i++ { // c.next.Load, f.counters.Load, c.next.CAS: claimed, parked before the link
+		s.Step(a)
+	}
+	fmt.Fprintf(os.Stderr, "regwindow: A parked before %s; list=%v\n", s.Last(a).Label, mw.listed())
+	run := func(name string, fn func()) {
+		ev0 := len(s.Events)
+		t := s.Go(fn)
+		for n := 0; !s.Done(t) && n < 500; n++ {
+			s.Step(t)
+		}
+		fmt.Fprintf(os.Stderr, "regwindow: %s done=%v obs=%v events=%v\n", name, s.Done(t), mw.observe(), s.Events[ev0:])
+	}
+	run("B Add(2)", func() { c.Add(2) })
+	now = now.Add(8 * 24 * time.Hour)
+	run("C rotate1 (next week)", func() { f.Rotate1() })
+	run("D Add(4)", func() { c.Add(4) })
+	for n := 0; !s.Done(a) && n < 500; n++ {
+		s.Step(a)
+	}
+	fmt.Fprintf(os.Stderr, "regwindow: A resumed, done=%v obs=%v list=%v\n", s.Done(a), mw.observe(), mw.listed())
+	f.Close()
+	vatomic.ResetClosed()
+	counter.VerifConcRelease()
+}
+
 func main() {
 	outPath := os.Args[1]
 	n, _ := strconv.Atoi(os.Args[2])
@@ -961,6 +1033,9 @@ func main() {
 	}
 	defer os.RemoveAll(root)
 	counter.VerifConcInit()
+	if os.Getenv("VH_REGWINDOW") != "" {
+		regWindow()
+	}
 	for i := 0; i < n; i++ {
 		scenario()
 		if i%8 == 7 {
